@@ -101,6 +101,16 @@ class C03(Suite):
                                  "vals": [lg.rand_val(rng, ty) for _ in range(ln)]})
                     reqs.append({"op": "rt", "path": [["s", name]], "n": ln})
             yield {"budget": 488, "tags": tags, "reqs": reqs, "via_main": True}
+        # more than ten tags: every one is its own array (write all, then read all)
+        for k in range(4 if tier == "quick" else 40):
+            tags = lg.many_tags(rng)
+            reqs = [{"op": "wt", "path": [["s", t["name"]]], "ty": lc.TYPES[t["type"]], "n": t["len"],
+                     "vals": [lg.rand_val(rng, t["type"]) for _ in range(t["len"])]} for t in tags]
+            reqs += [{"op": "rt", "path": [["s", t["name"]]], "n": t["len"]} for t in tags]
+            c = {"budget": 488, "tags": tags, "reqs": reqs}
+            if k % 2:
+                c["via_main"] = True
+            yield c
         n = 250 if tier == "quick" else 5000
         for k in range(n):
             tags = lg.rand_tags(rng, big=(tier == "thorough"))
